@@ -53,7 +53,7 @@ Fixpoint recv_all (fuel : nat) (need : nat) (acc : list N) (rfds : option (list 
       else
         match recvmsg (need - List.length acc) true q with
         | (RxEof, c, q') => RxAll acc rfds (cl ++ c) q'
-        | (RxData [] _, c, q') => RxAll acc rfds (cl ++ c) q'   (* 0 bytes: treated as end *)
+        | (RxData [] fds, c, q') => RxAll acc rfds (cl ++ c ++ fds) q'   (* 0 bytes: treated as end; files dropped *)
         | (RxData bs fds, c, q') =>
             let is_first := match acc with [] => true | _ => false end in
             let rfds' := if is_first then (match fds with [] => None | _ => Some fds end) else rfds in
